@@ -328,6 +328,16 @@ class Interp:
 
     def compare(self, op, l, r):
         f = CMP_OPS.get(op)
+        if f is None and op in (ast.Is, ast.IsNot) and l.const and r.const and l.items is None and r.items is None \
+                and l.ty != QCHAR and r.ty != QCHAR:
+            # identity of two int / bool constants (CPython: one object per bool and per small int)
+            same = type(l.ex) is type(r.ex) and l.ex == r.ex and (isinstance(l.ex, bool) or -5 <= l.ex <= 256)
+            return mk_const(same if op is ast.Is else not same)
+        if f is None and op in (ast.In, ast.NotIn) and l.const and l.items is None and r.items is not None \
+                and all(x.const and x.items is None for x in r.items):
+            # membership of a constant in a tuple / list literal of constants
+            found = any(x.ex == l.ex for x in r.items)
+            return mk_const(found if op is ast.In else not found)
         if f is None:
             raise Malformed("comparator not in the subset")
         if l.const and r.const and l.items is None and r.items is None:
@@ -480,7 +490,25 @@ class Interp:
             return select(t, self.ev(e.body, env), self.ev(e.orelse, env))
         if isinstance(e, ast.Compare):
             if len(e.ops) != 1:
-                raise Malformed("comparison chain")
+                # python's meaning of a chain: `a op b and b op c ...`, every operand evaluated at most once, the
+                # links after the first false one not at all.  (Outside the documented subset: the library may reject
+                # it; if it accepts, this is what the program means.)
+                l = self.ev(e.left, env)
+                res, ks, allconst = True, [], True
+                for op, cm in zip(e.ops, e.comparators):
+                    r = self.ev(cm, env)
+                    x = self.compare(type(op), l, r)
+                    if x.ty != BOOL or x.items is not None:
+                        raise Malformed("comparison chain link")
+                    allconst = allconst and x.const
+                    ks.append(x.k)
+                    res = bool(x.ex)
+                    if not res:
+                        break
+                    l = r
+                if allconst:
+                    return mk_const(res)
+                return V(BOOL, res, None, None if kmin(*ks) is None else 0)
             return self.compare(type(e.ops[0]), self.ev(e.left, env), self.ev(e.comparators[0], env))
         if isinstance(e, ast.BinOp):
             return self.binop(type(e.op), self.ev(e.left, env), self.ev(e.right, env))
